@@ -2,6 +2,8 @@ package connsim
 
 import (
 	"net"
+	"os"
+	"strconv"
 	"strings"
 	"sync"
 	"sync/atomic"
@@ -31,6 +33,49 @@ func freeAddr() string {
 	}
 	defer ln.Close()
 	return ln.Addr().String()
+}
+
+// stillListening: this process still owns a listening TCP socket on the port (read from
+// /proc, so that a port reused by another process is not mistaken for our listener)
+func stillListening(addr string) bool {
+	_, portStr, err := net.SplitHostPort(addr)
+	if err != nil {
+		return false
+	}
+	port, _ := strconv.Atoi(portStr)
+	data, err := os.ReadFile("/proc/self/net/tcp")
+	if err != nil {
+		return false
+	}
+	inodes := map[string]bool{}
+	for _, line := range strings.Split(string(data), "\n")[1:] {
+		f := strings.Fields(line)
+		if len(f) < 10 || f[3] != "0A" {
+			continue
+		}
+		lp := strings.Split(f[1], ":")
+		if len(lp) != 2 {
+			continue
+		}
+		if v, err := strconv.ParseInt(lp[1], 16, 32); err == nil && int(v) == port {
+			inodes[f[9]] = true
+		}
+	}
+	if len(inodes) == 0 {
+		return false
+	}
+	ents, err := os.ReadDir("/proc/self/fd")
+	if err != nil {
+		return false
+	}
+	for _, e := range ents {
+		if l, err := os.Readlink("/proc/self/fd/" + e.Name()); err == nil && strings.HasPrefix(l, "socket:[") {
+			if inodes[strings.TrimSuffix(strings.TrimPrefix(l, "socket:["), "]")] {
+				return true
+			}
+		}
+	}
+	return false
 }
 
 func countStacks(sub string) int {
@@ -158,9 +203,8 @@ func RunListener(in Sx) (Sx, []string) {
 	afterOK := 0
 	if ret == 1 {
 		for _, a := range addrs {
-			if c, err := net.DialTimeout("tcp", a, 300*time.Millisecond); err == nil {
+			if stillListening(a) {
 				afterOK = 1
-				c.Close()
 			}
 		}
 	}
